@@ -605,7 +605,7 @@ pub fn run(o: &Opts) {
     cx.st.rule = "expression trees generated along the grammar of parse/expr.rs (add over mul over unary over value; parentheses where the grammar needs them, plus redundant ones in the random stream) over six literals (number, zero, amount, zero amount, negative amount, second commodity); printed to text; the text is parsed by syntax::expr::ValueExpr::try_from (tree compared) and evaluated by Ledger::eval, `okane primitive eval`, and as posting amount, @ cost, {} lot price, balance assertion and balance assignment through report::process; non-trivial = at least one operator; distinct by expression text".into();
     cx.st.assumptions.push("an inexact quotient (Decimal rounds to 28 digits) is only generated at the root of a tree, where it is compared up to 1e-18 relative; everywhere else values are compared exactly".into());
     cx.st.assumptions.push("literal mantissas below 10^7, at most 8 operators: no Decimal overflow".into());
-    cx.st.assumptions.push("parentheses nested far less than the parser's MAX_EXPR_DEPTH = 100 (the token-level model has no depth bound)".into());
+    cx.st.assumptions.push("parentheses nested far less than the parser's MAX_EXPR_DEPTH = 100 and trees far lower than its MAX_EXPR_HEIGHT = 256, i.e. chains far shorter than 255 operators (the token-level model has neither bound)".into());
 
     // the processed ledger every Ledger::eval call is made against (it mentions the commodities)
     let arena = bumpalo::Bump::new();
